@@ -101,14 +101,17 @@ func main() {
 		pre  []string // edits (with complete builds) before the concurrent builds; last edit is applied without a build
 		step int
 		famB hist.Family // what invocation B is asked to build, if not the same as A
+		famP hist.Family // what the builds of the pre-history are asked to build, if not the same as A
 	}
 	chain, dirs := hist.Chain{Threads: "2"}, hist.Dirs{Threads: "2"}
 	// two filegroups exporting the same generated files: A builds one, B the other (different per-target locks), and both build both
-	sharedAB := scenario{hist.SharedFG{Only: "a"}, []string{"init"}, 1, hist.SharedFG{Only: "b"}}
-	sharedBoth := scenario{hist.SharedFG{}, []string{"init"}, 1, nil}
-	scs := []scenario{{chain, []string{"init"}, 1, nil}, {dirs, []string{"init"}, 2, nil}, sharedAB}
+	sharedAB := scenario{hist.SharedFG{Only: "a"}, []string{"init"}, 1, hist.SharedFG{Only: "b"}, nil}
+	// the same after both were built once and the generated file changed: the shared outputs exist and are replaced
+	sharedAB2 := scenario{hist.SharedFG{Only: "a"}, []string{"init", "v=2"}, 1, hist.SharedFG{Only: "b"}, hist.SharedFG{}}
+	sharedBoth := scenario{hist.SharedFG{}, []string{"init"}, 1, nil, nil}
+	scs := []scenario{{chain, []string{"init"}, 1, nil, nil}, {dirs, []string{"init"}, 2, nil, nil}, sharedAB, sharedAB2}
 	if !r.Quick() {
-		scs = []scenario{{chain, []string{"init"}, 1, nil}, {dirs, []string{"init"}, 1, nil}, {chain, []string{"init", "a_txt=y"}, 1, nil}, {dirs, []string{"init", "d_txt=y"}, 1, nil}, {dirs, []string{"init", "g_binary=True"}, 1, nil}, sharedAB, sharedBoth}
+		scs = []scenario{{chain, []string{"init"}, 1, nil, nil}, {dirs, []string{"init"}, 1, nil, nil}, {chain, []string{"init", "a_txt=y"}, 1, nil, nil}, {dirs, []string{"init", "d_txt=y"}, 1, nil, nil}, {dirs, []string{"init", "g_binary=True"}, 1, nil, nil}, sharedAB, sharedAB2, sharedBoth}
 	}
 	if r.Replay != "" {
 		var w witness
@@ -117,9 +120,12 @@ func main() {
 		if w.Family == "dirs" {
 			f = dirs
 		}
-		scs = []scenario{{f, w.Pre, 1, nil}}
+		scs = []scenario{{f, w.Pre, 1, nil, nil}}
 		if w.Family == "sharedfg" {
 			scs = []scenario{sharedAB}
+			if len(w.Pre) > 1 {
+				scs = []scenario{sharedAB2}
+			}
 			if w.BBuilds == "" {
 				scs = []scenario{sharedBoth}
 			}
@@ -150,7 +156,11 @@ func main() {
 			}
 			hist.Materialise(sc.fam, src, filepath.Join(pre, "repo"), noCache)
 			if i < len(sc.pre)-1 {
-				if o := e.RunWith(plz, pre, src, nil); o.Exit != 0 {
+				ep := e
+				if sc.famP != nil {
+					ep = &hist.Engine{Plz: e.Plz, Root: e.Root, Workers: e.Workers, Fam: sc.famP}
+				}
+				if o := ep.RunWith(plz, pre, src, nil); o.Exit != 0 {
 					lib.Fatal("pre-state build failed: %s", o.Output)
 				}
 			}
@@ -186,6 +196,12 @@ func main() {
 		ks := []int{}
 		for k := 0; k < len(keys); k += sc.step {
 			ks = append(ks, k)
+		}
+		if sc.famP != nil {
+			// Scenarios in which shared output files are replaced run under the three-step schedules only: there every
+			// phase has exactly one running process. (With a single pause both processes run freely after the release and
+			// can meet in the listed remove-then-link window by themselves - a verdict that would depend on timing.)
+			ks = nil
 		}
 		if r.Replay != "" {
 			var w witness
@@ -286,7 +302,7 @@ func main() {
 		close(ch)
 		wg.Wait()
 		if sc.famB != nil && (r.Replay == "" || replayThree) {
-			n3, ex3 := threeStep(r, e, sc.fam, pre, src, args, argsB, keys, clean, plzVos)
+			n3, ex3 := threeStep(r, e, sc.fam, sc.pre, pre, src, args, argsB, keys, clean, plzVos)
 			atomic.AddInt64(&execs, int64(n3))
 			atomic.AddInt64(&states, int64(3*n3))
 			threeStepRuns += n3
@@ -299,7 +315,7 @@ func main() {
 	r.Assume = []string{
 		"granularity: mutating file-system operations of plz itself (os.* / xattr.* in src/fs, cache, build, core, test); instruction-level races inside one operation or inside the kernel are out of reach",
 		"schedules: process A preempted once, before each of its operations in turn; B runs in the gap until it exits or sleeps in flock() (detected from /proc/<pid>/task/*/stack); with two invocations of the same command the two role assignments are symmetric",
-		"three-step schedules (scenarios in which A and B build different targets that share output files): A is preempted twice (before operation i and before a later operation j on the shared output paths), B once (before each of its operations on those paths, or not at all) in between: A..i | B..b | A i..j | B b..end | A j..end; quick: i = each removal of a shared file, j = the operation that re-creates it; thorough: every pair i<j",
+		"three-step schedules (scenarios in which A and B build different targets that share output files): A is preempted twice (before operation i and before a later operation j on the shared output paths), B once (before each of its operations, right after each of its link/rename operations, or not at all) in between: A..i | B..b | A i..j | B b..end | A j..end; quick: i = each removal of a shared file, j = the operation that re-creates it; thorough: every pair i<j",
 		"each invocation uses -n 2, so operation order inside one process varies between runs: pause points are named by operation identity (i-th occurrence of `op path` of a lone dry run), not by number; a pause point that an invocation does not reach lets it run to its end (B then runs after A)",
 	}
 	r.Finish(lib.Coverage{
@@ -354,7 +370,7 @@ type witness3 struct {
 }
 
 // threeStep: A..i | B..b | A i..j | B b..end | A j..end over the operations on the shared output files.
-func threeStep(r *lib.Run, e *hist.Engine, fam hist.Family, pre string, src hist.Src, args, argsB, keys []string, clean *hist.Obs, plzVos string) (int, bool) {
+func threeStep(r *lib.Run, e *hist.Engine, fam hist.Family, preHist []string, pre string, src hist.Src, args, argsB, keys []string, clean *hist.Obs, plzVos string) (int, bool) {
 	// B's own operations, from a lone dry run of B
 	dry := filepath.Join(e.Root, "dryB")
 	hist.CopyTree(pre, dry)
@@ -374,11 +390,19 @@ func threeStep(r *lib.Run, e *hist.Engine, fam hist.Family, pre string, src hist
 		}
 		k := strings.ReplaceAll(f[1], dry, "@")
 		count[k]++
-		if key := fmt.Sprintf("%d:%s", count[k], k); sharedOp(key) {
-			keysB = append(keysB, key)
+		key := fmt.Sprintf("%d:%s", count[k], k)
+		keysB = append(keysB, key) // every operation of B: what B does after it touched a shared file matters
+		if op := opOf(key); op == "link" || op == "rename" {
+			keysB = append(keysB, "after:"+key) // right after the file was put in place, before B reads it
 		}
 	}
 	os.RemoveAll(dry)
+	if os.Getenv("C31_DEBUG") != "" {
+		for _, k := range keys {
+			fmt.Fprintf(os.Stderr, "A-key %q shared=%v op=%q last=%q\n", k, sharedOp(k), opOf(k), lastPath(k))
+		}
+		fmt.Fprintf(os.Stderr, "B-keys %q\n", keysB)
+	}
 	type sched struct{ a1, a2, b string }
 	var scheds []sched
 	for i, k1 := range keys {
@@ -436,7 +460,9 @@ func threeStep(r *lib.Run, e *hist.Engine, fam hist.Family, pre string, src hist
 				waitReached(a, pa1, nil, 120*time.Second)
 				dbg("A at P1 or finished")
 				var envB []string
-				if sc.b != "" {
+				if strings.HasPrefix(sc.b, "after:") {
+					envB = []string{"VOS_PAUSE_AFTER=" + strings.TrimPrefix(sc.b, "after:"), "VOS_NORM=" + dir, "VOS_PAUSE_DIR_AFTER=" + pb}
+				} else if sc.b != "" {
 					envB = []string{"VOS_PLAN=pauseop@" + sc.b, "VOS_NORM=" + dir, "VOS_PAUSE_DIR=" + pb}
 				}
 				b := start(plzVos, dir, argsB, envB)
@@ -462,8 +488,8 @@ func threeStep(r *lib.Run, e *hist.Engine, fam hist.Family, pre string, src hist
 				for _, d := range []string{pa1, pa2, pb} {
 					os.RemoveAll(d)
 				}
-				wit := witness3{Family: fam.Name(), Pre: []string{"init"}, Kind: "three-step", A1: sc.a1, A2: sc.a2, B: sc.b, BBuilds: strings.Join(argsB, " ")}
-				cls := fmt.Sprintf("%s:three-step:A-between-%s-and-%s:B-%s", fam.Name(), opOf(sc.a1), opOf(sc.a2), map[bool]string{true: "not-paused", false: "paused-before-" + opOf(sc.b)}[sc.b == ""])
+				wit := witness3{Family: fam.Name(), Pre: preHist, Kind: "three-step", A1: sc.a1, A2: sc.a2, B: sc.b, BBuilds: strings.Join(argsB, " ")}
+				cls := fmt.Sprintf("%s:three-step:A-between-%s-and-%s:B-%s", fam.Name(), opOf(sc.a1), opOf(sc.a2), map[bool]string{true: "not-paused", false: "paused-" + map[bool]string{true: "after-", false: "before-"}[strings.HasPrefix(sc.b, "after:")] + opOf(strings.TrimPrefix(sc.b, "after:"))}[sc.b == ""])
 				switch {
 				case !verdict:
 					mu.Lock()
